@@ -1863,15 +1863,21 @@ def serialize_graph_into(
         graph_proto.name = from_.name
     if from_.doc_string:
         graph_proto.doc_string = from_.doc_string
+    # Values whose quantization annotation has been emitted already: a value can be
+    # an input/initializer and a graph output at the same time
+    annotated: set[int] = set()
     for input_ in from_.inputs:
         serialize_value_into(graph_proto.input.add(), input_)
-        if input_.name not in from_.initializers:
+        if input_.name not in from_.initializers and id(input_) not in annotated:
             # Annotations for initializers will be added below to avoid double adding
+            annotated.add(id(input_))
             _maybe_add_quantization_annotation(graph_proto, input_)
     input_names = {input_.name for input_ in from_.inputs}
     # TODO(justinchuby): Support sparse_initializer
     for value in from_.initializers.values():
-        _maybe_add_quantization_annotation(graph_proto, value)
+        if id(value) not in annotated:
+            annotated.add(id(value))
+            _maybe_add_quantization_annotation(graph_proto, value)
         if _should_create_value_info_for_value(value) and value.name not in input_names:
             # Serialize information about all initializers into value_info,
             # except for those that are also graph inputs
@@ -1899,7 +1905,9 @@ def serialize_graph_into(
                 serialize_value_into(graph_proto.value_info.add(), node_output)
     for output in from_.outputs:
         serialize_value_into(graph_proto.output.add(), from_=output)
-        _maybe_add_quantization_annotation(graph_proto, output)
+        if id(output) not in annotated:
+            annotated.add(id(output))
+            _maybe_add_quantization_annotation(graph_proto, output)
     if from_.metadata_props:
         _serialize_metadata_props_into(graph_proto.metadata_props, from_.metadata_props)
 
